@@ -71,7 +71,9 @@ VALUES = {
   "TextEmphasis": [S("none"), ["te", "auto", None, "outside"], ["te", "filled_circle", RED, "before"], ["te", "open_sesame", None, "after"], ["te", "auto", BLUE_HALF, "before"]],
   "TextOutline": [S("none"), ["to", L(10, "%"), None], ["to", L(0.1, "em"), RED], ["to", L(0.1, "c"), None], ["to", L(3, "px"), BLUE_HALF], ["to", L(1, "rh"), None]],
   "TextShadow": [S("none"), ["ts", [[L(1, "px"), L(2, "px"), None, None]]], ["ts", [[L(10, "%"), L(0.1, "em"), L(0.1, "c"), RED]]],
-                 ["ts", [[L(1, "px"), L(1, "px"), None, RED], [L(0.2, "em"), L(0.2, "em"), L(1, "px"), None]]], ["ts", [[L(1, "rh"), L(1, "rw"), None, None]]]],
+                 ["ts", [[L(1, "px"), L(1, "px"), None, RED], [L(0.2, "em"), L(0.2, "em"), L(1, "px"), None]]], ["ts", [[L(1, "rh"), L(1, "rw"), None, None]]],
+                 # lengths of exactly 0 in every relative unit (0 px is still not a root-container-relative length)
+                 ["ts", [[L(0, "px"), L(0, "em"), L(0, "px"), None], [L(1, "c"), L(0, "%"), L(0, "c"), RED]]]],
   "UnicodeBidi": [E("UnicodeBidiType", x) for x in ("normal", "embed", "bidiOverride")],
   "Visibility": [E("VisibilityType", "visible"), E("VisibilityType", "hidden")],
   "WrapOption": [E("WrapOptionType", "wrap"), E("WrapOptionType", "noWrap")],
